@@ -199,7 +199,8 @@ impl C11 {
 				if let Some(t) = scn
 					.tokens
 					.iter()
-					.find(|t| *b > t.off + datum_off && *b < t.off + datum_off + t.len)
+					// (the inner length / scale of a big-decimal are one-byte varints: a boundary right before or after counts)
+					.find(|t| (*b > t.off + datum_off && *b < t.off + datum_off + t.len) || (t.kind == TokKind::DecimalInner && (*b == t.off + datum_off || *b == t.off + datum_off + t.len)))
 				{
 					out.count(tok_label(t.kind), 1);
 					if first_tok.is_none() {
